@@ -384,6 +384,27 @@ def sc_meta_game(M, n, gap, meta):
 
 
 @scenario
+def sc_meta_game_pair(M, n, gap_a, gap_b, metas):
+    """Two meta-games alive in one process, over two DIFFERENT (symbolic) full games and possibly different gap functions,
+    queried alternately about the same meta-coalitions: each answer is the gap of ITS OWN game at that knowledge (the
+    statement quantifies over all games; nothing may leak from one meta-game object into another)."""
+    mg = M.mod("meta_game")
+    C = M.mod("coalitions").Coalition
+    from props.scenarios import complete_game, declare_game, make_incomplete
+    va, vb = declare_game(M, n, prefix="av"), declare_game(M, n, prefix="bv")
+    assume_class(M, n, va, "superadditive")
+    assume_class(M, n, vb, "superadditive")
+    ma = mg.MetaGame(complete_game(M, n, va), make_incomplete(M, n, "superadditive_cached", va, tag="a")[0], gap_function(M, gap_a))
+    mb = mg.MetaGame(complete_game(M, n, vb), make_incomplete(M, n, "superadditive_cached", vb, tag="b")[0], gap_function(M, gap_b))
+    non_min = [c for c in range(1 << n) if c not in minimal(n)]
+    for r, meta in enumerate(list(metas) + list(metas)):       # second round: every answer once more, after the other object answered
+        inner = {non_min[i] for i in range(len(non_min)) if meta >> i & 1}
+        for tag, m, v, gap in (("a", ma, va, gap_a), ("b", mb, vb, gap_b)):
+            val = M.val(m.get_value(C(meta)))
+            check_gap_equals(M, f"{tag}.round{r}.meta{meta}.value_is_gap_of_own_game", n, gap, val, *_LU(M, n, set(minimal(n)) | inner, v))
+
+
+@scenario
 def sc_search(M, n, max_size, gap="exploitability", start=()):
     """get_exploitabilities_of_action_sequences (assumed starmap contract): one entry per subset of the unknown
     coalitions of size <= max_size, each exactly once, by increasing size, carrying the gap of exactly that knowledge."""
